@@ -198,18 +198,21 @@ class CommonRD:
             if "lt" in registration_parameters:
                 try:
                     set_lt = int(pop_single_arg(registration_parameters, "lt"))
-                except ValueError:
+                except (ValueError, TypeError):
                     raise error.BadRequest("lt must be numeric")
 
             if "base" in registration_parameters:
                 set_base = pop_single_arg(registration_parameters, "base")
+                if set_base is None:
+                    raise error.BadRequest("base needs a value")
 
             if set_lt is not None and self.lt != set_lt:
                 actual_change = True
                 self.lt = set_lt
-            if set_base is not None and (is_initial or self.base != set_base):
-                actual_change = True
-                self.base = set_base
+            if set_base is not None:
+                if is_initial or self.base != set_base:
+                    actual_change = True
+                    self.base = set_base
                 self.base_is_explicit = True
 
             if not self.base_is_explicit and (is_initial or self.base != network_base):
